@@ -321,8 +321,6 @@ def isa_kids(formulas):
 def run_and_check(E, con, fi, bound, model, heap0, want=None, relevant_kids=None):
     """concretise the model's inputs, run the real function, evaluate the contract's clauses on the real outcome.
     returns info dict with 'violated': list of violated clause labels (or ['raises'])"""
-    global LOG
-    ctx = Ctx(E, [], "replay-eval")
     conc = Concretiser(E, model, heap0)
     conc.relevant_kids = relevant_kids
     if con.new_object:
@@ -334,11 +332,34 @@ def run_and_check(E, con, fi, bound, model, heap0, want=None, relevant_kids=None
             args[name] = conc.value(sv.t, sv.ty)
         else:
             raise NotConcretisable("parameter %s is an engine-level value %r" % (name, sv))
+    info = check_args(E, con, fi, args, {k: v.ty for k, v in bound.items()}, want=want)
+    info["inexact_floats"] = conc.inexact
+    return info
+
+
+def check_args(E, con, fi, args, types, want=None, check_requires=False):
+    """run the real function on concrete arguments and evaluate the contract's clauses on what it did"""
+    global LOG
+    ctx = Ctx(E, [], "replay-eval")
+    ctx.concrete = True
+
+    def valid(f, tmo=20000):
+        """validity of a clause on the concrete state, under the definitional facts collected while building it (fold unfoldings)"""
+        return holds(z3.Implies(z3.And(*ctx.pc), f) if ctx.pc else f, tmo)
+
     hb0 = HeapBuilder(ctx)
-    cb0 = {name: SV(hb0.encode(args[name], bound[name].ty), bound[name].ty) for name in args}
+    cb0 = {name: SV(hb0.encode(args[name], types[name]), types[name]) for name in args}
     old_h = hb0.heap()
-    info = {"inputs": {k: _describe(v) for k, v in args.items()}, "inexact_floats": conc.inexact}
-    LOG = []
+    info = {"inputs": {k: _describe(v) for k, v in args.items()}}
+    if check_requires:
+        pre = Spec(ctx, old_h, old_h)
+        pre.tr, pre.trlen, pre.tr_old_len = z3.K(z3.IntSort(), pre.event("none")), z3.IntVal(0), z3.IntVal(0)
+        shapes_ok = z3.And(*[sv.ty.inv(sv.t, goal=True) for sv in cb0.values()])
+        cl = eval_clause(con.requires, pre, views_of(pre, cb0, old_h))
+        if valid(z3.And(shapes_ok, *cl.values()), 5000) is not True:
+            info["violated"] = None
+            info["note"] = "input does not satisfy the precondition"
+            return info
     del LOG[:]
     runner = how_to_call(fi, con)
     kind = "return"
@@ -354,14 +375,21 @@ def run_and_check(E, con, fi, bound, model, heap0, want=None, relevant_kids=None
     hb1 = HeapBuilder(ctx, preset=hb0.ids, next_id=hb0.next, keep=hb0.keep)
     cb1 = {}
     for name in args:
-        cb1[name] = SV(hb1.encode(args[name], bound[name].ty), bound[name].ty)
+        cb1[name] = SV(hb1.encode(args[name], types[name]), types[name])
+    rv_term = None
+    if kind == "return" and con.result is not None and not isinstance(con.result, TNone):
+        rty = ctx.resolve_ty(con.result)
+        rv_term = hb1.encode(result, rty)
     new_h = hb1.heap()
     spec = Spec(ctx, old_h, new_h)
+    spec.mode = "prove"
     evs = _event_terms(spec, hb1, log)
     tr = z3.K(z3.IntSort(), spec.event("none"))
     for i, e in enumerate(evs):
         tr = z3.Store(tr, z3.IntVal(i), e)
     spec.tr, spec.trlen, spec.tr_old_len = tr, z3.IntVal(len(evs)), z3.IntVal(0)
+    new_h = hb1.heap()
+    spec.new_heap = new_h
     views = views_of(spec, cb1, new_h)
     info["observed"] = {"kind": kind, "events": [(e[0],) + tuple(_describe(x) for x in e[1:]) for e in log][:20]}
     info["observed"]["post_state"] = {k: _describe(v) for k, v in args.items()}
@@ -375,8 +403,9 @@ def run_and_check(E, con, fi, bound, model, heap0, want=None, relevant_kids=None
             except Exception:
                 continue
             if isinstance(exc, real):
-                conds = eval_clause(fn, spec, views, exc=None)
-                if not conds or holds(z3.And(*conds.values())) is True:
+                et = hb1.term(exc)
+                conds = eval_clause(fn, spec, views, exc=ObjView(spec, et, TExc(), hb1.heap()))
+                if not conds or valid(z3.And(*conds.values())) is True:
                     allowed = True
         if not allowed:
             violated.append("raises")
@@ -386,21 +415,140 @@ def run_and_check(E, con, fi, bound, model, heap0, want=None, relevant_kids=None
     if con.never_returns:
         violated.append("never-returns")
     rv = None
-    if con.result is not None and not isinstance(con.result, TNone):
+    if rv_term is not None:
         rty = ctx.resolve_ty(con.result)
-        rt = hb1.encode(result, rty)
-        if holds(rty.inv(rt, goal=True)) is not True:
+        if valid(rty.inv(rv_term, goal=True)) is not True:
             violated.append("result-shape")
-        rv = spec.view(SV(rt, rty), new_h)
+        rv = spec.view(SV(rv_term, rty), new_h)
     clauses = eval_clause(con.ensures, spec, views, result=rv)
     for lab, f in clauses.items():
         if want is not None and lab not in want:
             continue
-        r = holds(f)
+        r = valid(f)
         if r is False:
             violated.append(lab)
     info["violated"] = violated
     return info
+
+
+# ------------------------------------------------------------------------------------------ native search
+NUM_POOL = [0, 1, 2, 3, -1, -2, 0.5, 1.5, 2.5, -1.25, 7.5, 10, 0.0, 1.0]
+STR_POOL = ["a", "b", "c", "logging", "x y", "k=v", ""]
+EXC_POOL = [ValueError, KeyError, RuntimeError, StopIteration, KeyboardInterrupt, SystemExit, TypeError, LookupError]
+
+
+def gen_value(E, ctx, ty, rng, depth=0):
+    import math
+
+    ty = ctx.resolve_ty(ty)
+    if ty is None or isinstance(ty, TAny):
+        return rng.choice([None, 0, 1, "s", 2.5, "", False, [], (), {"x": 1}, [1, 2]])
+    if isinstance(ty, TOpt):
+        return None if rng.random() < 0.3 else gen_value(E, ctx, ty.inner, rng, depth)
+    if isinstance(ty, TNum):
+        pool = list(NUM_POOL)
+        if ty.inf:
+            pool += [math.inf, -math.inf]
+        if ty.only == "int":
+            pool = [x for x in pool if isinstance(x, int)]
+        if ty.only == "float":
+            pool = [float(x) for x in pool]
+        if ty.lo is not None:
+            pool = [x for x in pool if x >= ty.lo]
+        if ty.lo_strict is not None:
+            pool = [x for x in pool if x > ty.lo_strict]
+        if ty.hi is not None:
+            pool = [x for x in pool if x <= ty.hi]
+        return rng.choice(pool)
+    if isinstance(ty, TBool):
+        return rng.random() < 0.5
+    if isinstance(ty, TStr):
+        return rng.choice(STR_POOL)
+    if isinstance(ty, TNone):
+        return None
+    if isinstance(ty, TExc):
+        return rng.choice(EXC_POOL)("x")
+    if depth > 4:
+        raise NotConcretisable("shape too deep")
+    if isinstance(ty, TObj):
+        cls = ty.cls
+        real = getattr(importlib.import_module(cls.module.name), cls.name)
+        o = object.__new__(real)
+        for f, fty in ty.fields.items():
+            object.__setattr__(o, f, gen_value(E, ctx, fty, rng, depth + 1))
+        return o
+    if isinstance(ty, TAbs):
+        vals = {f: gen_value(E, ctx, fty, rng, depth + 1) for f, fty in ty.fields.items()}
+        if getattr(ty, "real", None) is not None:
+            return ty.real(vals)
+        o = stub_class(ty)()
+        for f, v in vals.items():
+            object.__setattr__(o, f, v)
+        o._stores.clear()
+        return o
+    if isinstance(ty, TFn):
+        rty = getattr(ty.contract, "result", None)
+        res = gen_value(E, ctx, rty, rng, depth + 1) if rty is not None else None
+        return RecordingCallable(getattr(ty.contract, "event_kind", None) or _event_kind_of(ty.contract), res, "f%d" % rng.randrange(1000))
+    if isinstance(ty, TTuple):
+        return tuple(gen_value(E, ctx, e, rng, depth + 1) for e in ty.elems)
+    if isinstance(ty, TSeq):
+        n = rng.choice([0, 1, 2, 2, 3])
+        items = [gen_value(E, ctx, ty.elem, rng, depth + 1) for _ in range(n)]
+        if ty.kind == "tuple":
+            return tuple(items)
+        if ty.kind == "dict-items":
+            return dict(items)
+        return items
+    if isinstance(ty, TMap):
+        n = rng.choice([0, 1, 2, 3])
+        return {gen_value(E, ctx, ty.key or TStr(), rng, depth + 1): gen_value(E, ctx, ty.val, rng, depth + 1) for _ in range(n)}
+    raise NotConcretisable("no generator for shape %s" % ty.describe())
+
+
+def _event_kind_of(con):
+    # the event name an abstract callable emits: recorded by its contract's emits through ctx.emit(kind, ...)
+    return getattr(con, "event_name", None) or con.key.split(":")[-1].split("#")[0]
+
+
+def native_search(E, con, fi, seed=0, budget_s=8.0, max_samples=400):
+    """search natively (no solver) for an input on which the REAL function breaks its contract: random inputs generated
+    from the contract's shapes, filtered by the precondition, the contract's clauses evaluated on the real outcome"""
+    import random
+    import time as _t
+
+    rng = random.Random(seed)
+    ctx = Ctx(E, [], "native-search")
+    t0 = _t.time()
+    tried = accepted = 0
+    if fi.is_async:
+        return {"found": False, "why": "coroutine function: no native driver", "tried": 0}
+    while _t.time() - t0 < budget_s and tried < max_samples:
+        tried += 1
+        try:
+            args = {}
+            types = {}
+            for name, ty in con.params.items():
+                if callable(ty) and not isinstance(ty, T):
+                    raise NotConcretisable("parameter producer")
+                ty = ctx.resolve_ty(ty)
+                types[name] = ty
+                args[name] = gen_value(E, ctx, ty, rng)
+            if con.new_object:
+                o = args[con.new_object]
+                for k in list(vars(o)):
+                    object.__delattr__(o, k)
+            info = check_args(E, con, fi, args, types, check_requires=True)
+        except NotConcretisable as nc:
+            return {"found": False, "why": "not concretisable: %s" % nc, "tried": tried}
+        except Exception as ex:  # noqa
+            continue
+        if info.get("violated") is None:
+            continue
+        accepted += 1
+        if info["violated"]:
+            return {"found": True, "input": info["inputs"], "observed": info["observed"], "violated_clauses": info["violated"], "tried": tried, "accepted": accepted}
+    return {"found": False, "tried": tried, "accepted": accepted}
 
 
 def _describe(v, depth=0):
